@@ -8,7 +8,7 @@ PROP = {
     ],
     "streams": [
         {"name": "health", "driver": "drv_health",
-         "quick": {"n": 400}, "thorough": {"n": 6000, "seeds": 3},
+         "quick": {"n": 400}, "thorough": {"n": 3000, "seeds": 2},
          "timeout": {"quick": 900, "thorough": 3600}},
     ],
     "exhaustive": False,
